@@ -85,8 +85,10 @@ Definition gfld (e : tenv) (ft : ty) (x : val) : res (option gexpr) :=
       | TP el, VPtr _ x' =>
           match lit_basic el with
           | Some k => if basic_ok k x' then Ok (Some (GPtrLit k x')) else Stuck
-          (* g.GetFuncName(typ): the helper of the UNDERLYING pointer type *)
-          | None => rdo g <- top e' (TP el) x; Ok (Some g)
+          (* g.GetFuncName(fieldType): the helper of the component's OWN type, like slices, arrays and
+             maps (since the fix "a component of a named pointer, slice, array or map type is handed to the
+             function of its own type"; before, the helper of the underlying pointer type: top e' (TP el) x) *)
+          | None => rdo g <- top e ft x; Ok (Some g)
           end
       | TSl _, VNilS => Ok None
       | TSl el, VSl _ es _ =>
